@@ -114,7 +114,11 @@ def run(ck, F, tier):
     ck.inst("P4", "writer:token-set", not others, wb.span, "the writer emits only numbers, single spaces, newlines and `0` padding" if not others else "unexpected output %r" % others)
 
     # ---- P3 / P4: reader -------------------------------------------------------------------
-    tr = Tracer(F, r"std::iter::Iterator::next|sparse::SparseMatrix::(new|insert)", mode="int")
+    # private helpers of module `sparse` are expanded, so that extracting part of the parser into a helper is transparent
+    PUBLIC = re.compile(r"sparse::SparseMatrix::(new|insert|remove|toggle|contains|num_rows|num_cols|row_weight|col_weight|iter_row|iter_col|iter_all|"
+                        r"clear_row|clear_col|set_row|set_col|insert_row|insert_col|from_alist|alist|alist_no_padding|write_alist\w*)")
+    tr = Tracer(F, r"std::iter::Iterator::next|sparse::SparseMatrix::(new|insert)", mode="int",
+                inline=lambda p: F.bodies.get(p) if p and p.startswith("sparse::") and not PUBLIC.fullmatch(p) else None)
     env = {}
     tr.bind(rb.params[0], var("alist"), env)
     try:
